@@ -123,7 +123,9 @@ def run(ctx):
         progs.append((pr, rows, f"c15_{i}.csv"))
     VARIANTS = [("plain", ""), ("nomatch", "~return-mode: no-matches :~ "), ("keep", "~unmatched-mode: keep :~ "),
                 ("norun", "~run-mode: no-run :~ "), ("noprint", "~print-mode: no-default :~ "), ("fields", None),
-                ("keepnomatch", "~ unmatched-mode: keep return-mode: no-matches :~ ")]
+                ("keepnomatch", "~ unmatched-mode: keep return-mode: no-matches :~ "),
+                # the same two, collected into a list the caller supplies: collect(lines=[...]) is what CsvPaths.collect_paths calls
+                ("keep_sink", "~unmatched-mode: keep :~ "), ("keepnomatch_sink", "~ unmatched-mode: keep return-mode: no-matches :~ ")]
     jobs, index = [], []
     for pi, (pr, rows, fname) in enumerate(progs):
         for vn, cm in VARIANTS:
@@ -133,7 +135,7 @@ def run(ctx):
                     c, _ = gen_comment(rng)
                 cm = "~" + c + " :~ " if c.strip() else ""
             fn = f"{vn}_{fname}"
-            jobs.append({"text": cm + pr["text"].replace(fname, fn), "rows": rows, "fname": fn, "method": 0, "k": 0,
+            jobs.append({"text": cm + pr["text"].replace(fname, fn), "rows": rows, "fname": fn, "method": 7 if vn.endswith("_sink") else 0, "k": 0,
                          "policy": ["collect", "print"], "capture": True, "log_printer": True})
             index.append((pi, vn))
     res = pmap(ctx, runloop.real_run, jobs, chunksize=8)
@@ -169,6 +171,11 @@ def run(ctx):
                     [x for x in k["unmatched"] if x >= 0] != sorted(x for x in k["unmatched"] if x >= 0):
                 fails.append({"kind": "collected + unmatched are not a partition of the records read", "csvpath": d[vn][0]["text"], "rows": rows,
                               "collected": k["ret"], "unmatched": k["unmatched"], "records_read": read})
+            ks = d[vn + "_sink"][1]
+            if ks["ret"] != k["ret"] or ks["unmatched"] != k["unmatched"] or obs_key(ks) != obs_key(k):
+                fails.append({"kind": "collect(lines=<the caller's list>) does not keep the lines and unmatched lines collect() keeps (the partition is lost when a CsvPaths supplies the list)",
+                              "csvpath": d[vn][0]["text"], "rows": rows, "collect": {"lines": k["ret"], "unmatched": k["unmatched"]},
+                              "collect_into_given_list": {"lines": ks["ret"], "unmatched": ks["unmatched"]}})
         nr = d["norun"][1]
         if nr["exc"] or nr["ret"] or nr["calls"] or nr["scan_count"] or nr["vars"] != "{}" or nr["printouts"]:
             fails.append({"kind": "run-mode no-run did something", "csvpath": d["norun"][0]["text"], "rows": rows, "impl": {k: nr[k] for k in ("exc", "ret", "scan_count", "vars", "printouts")}})
